@@ -429,6 +429,13 @@ def main(argv):
     tier = os.environ.get("VERIF_TIER", tier) if argv[2] != "--replay" and False else tier
     seed = int(os.environ.get("VERIF_SEED", "0") or 0)
     ctx = Ctx(prop, tier, seed)
+    if not replay:
+        import glob
+        for old in glob.glob(os.path.join(VERIF, "replays", prop + "-*.json")):
+            try:
+                os.remove(old)
+            except OSError:
+                pass
     try:
         mod = importlib.import_module("props." + prop.lower())
         ctx.build = prepare(prop, need_driver=getattr(mod, "NEED_DRIVER", True))
